@@ -155,6 +155,8 @@ func MultIteratorFromDense(tts ...DenseTensor) *MultIterator {
 					}
 				}
 			}
+			// building the combined mask has walked the iterator to its end
+			it.Reset()
 		}
 	}
 	it.numMasked = numMasked
